@@ -134,3 +134,39 @@ Lemma witness_exit_precision :
     (nthZ (b_res f2_pool) 0 - 1500000000000) * 2 ^ 4 = nthZ (b_res f2_pool) 0 /\   (* base = (1/2)^4, base^(1/4) = 1/2 *)
     S / 2 - s = 12744811428500 /\ S / 2 - s > S / 10 ^ 8.
 Proof. eexists _, _. split; [exact witness_exit_precision_value|]. vm_compute. repeat split; reflexivity. Qed.
+
+(* ---------- the integer core of CalcOutAmtGivenIn: out = floor( Bout * (1 - Pow(...)) ) exactly ---------- *)
+Lemma chop_round_exact p k : 0 < p -> chop_round p (k * p) = k.
+Proof.
+  intros Hp. unfold chop_round.
+  assert (Hn : forall m, 0 <= m -> chop_round_nonneg p (m * p) = m).
+  { intros m Hm. unfold chop_round_nonneg. rewrite Z.quot_mul, Z.rem_mul by lia. reflexivity. }
+  destruct (k * p <? 0) eqn:E.
+  - apply Z.ltb_lt in E. replace (- (k * p)) with ((- k) * p) by ring. rewrite Hn by nia. lia.
+  - apply Z.ltb_ge in E. apply Hn. nia.
+Qed.
+
+Lemma d_mul_dec_of_int a b : d_mul a (dec_of_int b) = a * b.
+Proof. unfold d_mul, dec_of_int. replace (a * (b * P18)) with ((a * b) * P18) by ring. apply chop_round_exact. reflexivity. Qed.
+
+Theorem b_calc_out_floor p i j a fee out :
+  b_calc_out_given_in p i j a fee = Ok out ->
+  exists y wr pw,
+    y = d_quo (dec_of_int (nthZ (b_res p) i)) (d_mul (dec_of_int a) (P18 - fee) + dec_of_int (nthZ (b_res p) i)) /\
+    wr = d_quo (dec_of_int (nthZ (b_w p) i)) (dec_of_int (nthZ (b_w p) j)) /\
+    pow y wr = Ok pw /\
+    0 < out /\ out * P18 <= (P18 - pw) * nthZ (b_res p) j < (out + 1) * P18.
+Proof.
+  intros H. apply b_calc_out_rounded_image in H as (r & (wr & y & pw & _ & _ & Hwr & Hy & Hpw & Hr) & Hout & Hpos).
+  exists y, wr, pw. repeat split; auto.
+  - rewrite d_mul_dec_of_int in Hr. subst r out.
+    assert (0 < (P18 - pw) * nthZ (b_res p) j).
+    { destruct (Z_lt_le_dec 0 ((P18 - pw) * nthZ (b_res p) j)); auto. exfalso.
+      assert (Z.quot ((P18 - pw) * nthZ (b_res p) j) P18 <= 0) by (apply Z.quot_le_upper_bound; [reflexivity|lia]). lia. }
+    apply quot_floor; [lia|reflexivity].
+  - rewrite d_mul_dec_of_int in Hr. subst r out.
+    assert (0 <= (P18 - pw) * nthZ (b_res p) j).
+    { destruct (Z_lt_le_dec ((P18 - pw) * nthZ (b_res p) j) 0); [|lia]. exfalso.
+      assert (Z.quot ((P18 - pw) * nthZ (b_res p) j) P18 <= 0) by (apply Z.quot_le_upper_bound; [reflexivity|lia]). lia. }
+    apply quot_floor; [lia|reflexivity].
+Qed.
